@@ -27,6 +27,8 @@ from pysnark.boolean import LinCombBool, PrivValBool, PubValBool
 import pysnark.fixedpoint as fx
 from pysnark.fixedpoint import LinCombFxp, PrivValFxp, PubValFxp
 import pysnark.branching as br
+from pysnark.array import Array, ArrayRow
+import pysnark.pack as pk
 import digest as D
 assert REAL or rt.backend is R, "recorder not selected as backend"
 ONE0 = LinComb.ONE          # the constant-one object created at import
@@ -53,6 +55,9 @@ def out_val(v, outs):
     elif isinstance(v, float):
         m, den = v.as_integer_ratio()
         outs.append((4, m, [(0, den.bit_length() - 1)]))
+    elif isinstance(v, Array):
+        outs.append((12, len(v.arr), []))
+        for x in v.arr: out_val(x, outs)
     elif isinstance(v, list):
         outs.append((5, len(v), []))
         for x in v: out_val(x, outs)
@@ -74,6 +79,7 @@ def plain(v):
         m, den = v.as_integer_ratio()
         return {"f": [m, den.bit_length() - 1]}
     if isinstance(v, (list, tuple)): return [plain(x) for x in v]
+    if isinstance(v, Array): return {"arr": [plain(x) for x in v.arr]}
     if v is None: return None
     return {"other": type(v).__name__}
 
@@ -88,8 +94,31 @@ def coherent(v, p, w):
         if isinstance(x, (LinComb, LinCombBool, LinCombFxp)): chk(x)
         elif isinstance(x, (list, tuple)):
             for y in x: walk(y)
+        elif isinstance(x, Array):
+            for y in x.arr: walk(y)
     walk(v)
     return bad
+
+
+def mk_schema(j):
+    if j[0] == "bool": return pk.PackBool()
+    if j[0] == "intmod": return pk.PackIntMod(j[1])
+    if j[0] == "list": return pk.PackList([mk_schema(x) for x in j[1]])
+    if j[0] == "repeat": return pk.PackRepeat(mk_schema(j[1]), j[2])
+    raise ValueError(j)
+
+
+def build_tree(t, regs):
+    if isinstance(t, int): return regs[t]
+    if t[0] == "list": return [build_tree(x, regs) for x in t[1]]
+    if t[0] == "tuple": return tuple(build_tree(x, regs) for x in t[1])
+    raise ValueError(t)
+
+
+def bind_tree(t, val, regs):
+    if isinstance(t, int): regs[t] = val
+    else:
+        for x, v in zip(t[1], val): bind_tree(x, v, regs)
 
 
 _WHILE_CALLERS = {}
@@ -138,6 +167,11 @@ def run_stmt(s, regs, ins, outs, st):
             continue
         if op == "ignore":
             rt.ignore_errors(bool(s[1])); continue
+        if op == "arrset":
+            a, idx, v = regs[s[1]], [regs[q] for q in s[2]], regs[s[3]]
+            a[idx[0] if len(idx) == 1 else tuple(idx)] = v
+            st["snap"][s[1]] = (plain(a),)          # a legitimate in-place update of the array register
+            continue
         if op == "bset":
             setattr(st["bv"], "v%d" % s[1], regs[s[2]]); continue
         if op == "breakif":
@@ -213,6 +247,27 @@ def run_stmt(s, regs, ins, outs, st):
         elif op == "list": v = [regs[i] for i in s[2]]
         elif op == "index": v = regs[s[2]][s[3]]
         elif op == "bget": v = getattr(st["bv"], "v%d" % s[2])
+        elif op == "pack": v = mk_schema(s[2]).pack(regs[s[3]])
+        elif op == "unpack": v = mk_schema(s[2]).unpack(regs[s[3]], 0)
+        elif op == "snark":
+            _, d_, args, body, res = s
+            def fn(*conv):
+                for t, cv in zip(args, conv): bind_tree(t, cv, regs)
+                run_stmts(body, regs, ins, outs, st)
+                return build_tree(res, regs)
+            ret = rt.snark(fn)(*[build_tree(t, regs) for t in args])
+            def rec_plain(x):
+                if isinstance(x, (list, tuple)):
+                    for y in x: rec_plain(y)
+                elif isinstance(x, float): outs.append((9, round(x * (1 << fx.resolution)), []))
+                else: out_val(x, outs)
+            rec_plain(ret)
+            st["snark_returns"].append(plain(ret))
+            v = None
+        elif op == "arrnew": v = Array([regs[q] for q in s[2]])
+        elif op == "arrget":
+            idx = [regs[q] for q in s[3]]
+            v = regs[s[2]][idx[0] if len(idx) == 1 else tuple(idx)]
         elif op == "meth":
             name, k, recv, args = s[2], s[3], regs[s[4]], [regs[i] for i in s[5]]
             if name == "from_bits": v = LinComb.from_bits(recv)
@@ -246,7 +301,7 @@ def run_case(case):
     rt.guard = None; rt._ignore_errors = bool(cfg["ign"]); LinComb.ONE = ONE0
     rt.bitlength = cfg["n"]; fx.resolution = cfg["res"]
     w = lambda k: 1 if k == 0 else (R.pubs[k - 1] if k > 0 else R.privs[-k - 1])
-    outs = []; st = {"pc": 0, "coh": [], "w": w, "vals": [], "snap": {}, "mutated": [], "gstack": [], "probes": [], "exn_ctx": None, "condvals": {}, "guard_conds": []}
+    outs = []; st = {"pc": 0, "coh": [], "w": w, "vals": [], "snap": {}, "mutated": [], "gstack": [], "probes": [], "exn_ctx": None, "condvals": {}, "guard_conds": [], "snark_returns": []}
     exn = None; gobs = None
     st["regs"] = {}
     st["bv"] = br.BranchingValues()
@@ -273,7 +328,7 @@ def run_case(case):
            "dig": [D.digest_vars(p, R.kinds, R.pubs, R.privs), D.digest_cons(p, cons), D.digest_outs(p, outs), D.digest_exn(p, exn, cur)],
            "unsat": unsat[:5], "incoherent": st["coh"][:5], "mutated": st["mutated"][:5], "floatbad": st.get("floatbad", False), "pc": st["pc"],
            "shape": [D.digest_cons(p, cons), "".join(R.kinds), D.digest_outs(p, [(t, 0, l) for t, v, l in outs if t > 0])],
-           "guard_conds": st["guard_conds"][:50], "final_bvals": st["final_bvals"],
+           "guard_conds": st["guard_conds"][:50], "snark_returns": st["snark_returns"][:20], "pubs_order": list(R.pubs)[:200], "final_bvals": st["final_bvals"],
            "globals": [rt.guard is None, bool(rt._ignore_errors), LinComb.ONE is ONE0],
            "final_regs": {str(k): plain(v) for k, v in list(st.get("regs", {}).items())[:200]},
            "vals": st["vals"][:300], "probes": st["probes"][:50], "exn_ctx": st["exn_ctx"], "exn_pc": st.get("exn_pc")}
